@@ -93,7 +93,11 @@ func (l *enumValueLoader) commentEnd(lex lexeme.LexEvent) {
 		panic(errs.ErrLoader.F())
 	}
 
-	l.enumConstraint.SetComment(l.lastIdx, lex.Value().String())
+	// A comment before the first value describes no value: it is dropped, as
+	// the comments of an enum rule file that stand alone are.
+	if l.lastIdx < l.enumConstraint.Len() {
+		l.enumConstraint.SetComment(l.lastIdx, lex.Value().String())
+	}
 	l.stateFunc = l.annotationEnd
 }
 
